@@ -21,23 +21,52 @@ CONSTANTS Ops,            \* operation -> the sequence of rows it writes (a row 
           SPLIT_COMMIT,   \* negative control: commit after every object's rows instead of once per operation
           FAULTS,         \* how many transient storage faults (a statement or a COMMIT refused: "database is locked",
                           \*   I/O error) the environment may inject
-          RETRY_AFTER_ROLLBACK   \* negative control: a refused COMMIT is answered by rollback-and-retry, which commits an
+          RETRY_AFTER_ROLLBACK,  \* negative control: a refused COMMIT is answered by rollback-and-retry, which commits an
                                  \*   empty transaction and acknowledges the operation
+          Tables,         \* the tables of the schema in the order start-up creates them (a sequence); every CREATE TABLE
+                          \*   is its own implicit transaction (DDL is not transactional here), so a crash may fall between two
+          SKIP_SCHEMA_IF_BASE,   \* negative control: start-up creates the schema only when the first table is missing
+          PRUNE_ON_START  \* negative control: start-up removes "incomplete" objects - those without a row in the second table
 
 OpNames == DOMAIN Ops
 Objects(op) == {Ops[op][i][2] : i \in DOMAIN Ops[op]}
 RowsOf(op) == {Ops[op][i] : i \in DOMAIN Ops[op]}
 
-VARIABLES disk, txn, cur, pos, acked, done, crashed, faults, failed
-vars == <<disk, txn, cur, pos, acked, done, crashed, faults, failed>>
+VARIABLES disk, txn, cur, pos, acked, done, crashed, faults, failed,
+          schema,    \* tables that exist on disk
+          ready,     \* the server finished its start-up and serves requests
+          restarts   \* how often the process was started again after a death (bounds the model)
+vars == <<disk, txn, cur, pos, acked, done, crashed, faults, failed, schema, ready, restarts>>
+
+TableSet == {Tables[i] : i \in DOMAIN Tables}
+\* the table a row lives in: "crypto_objects.state" is an update of crypto_objects, "managed_objects.deleted" a delete
+TableOf(row) == LET n == row[1]
+                    dot == {i \in 1..Len(n) : SubSeq(n, i, i) = "."} IN
+                IF dot = {} THEN n ELSE SubSeq(n, 1, (CHOOSE i \in dot : \A j \in dot : i <= j) - 1)
 
 Init == /\ disk = {} /\ txn = {} /\ cur = "none" /\ pos = 0
         /\ acked = {} /\ done = {} /\ crashed = FALSE
         /\ faults = FAULTS /\ failed = {}
+        /\ schema = {} /\ ready = FALSE /\ restarts = 0
 
-Begin(op) == /\ ~crashed /\ cur = "none" /\ op \notin done
+\* start-up: create the tables that are missing, one at a time, then serve.  (create_all checks every table first, so a
+\* start-up interrupted by a crash is completed by the next one.)
+StartStep ==
+    /\ ~crashed /\ ~ready
+    /\ IF SKIP_SCHEMA_IF_BASE /\ Tables[1] \in schema
+       THEN ready' = TRUE /\ UNCHANGED <<schema, disk>>
+       ELSE IF schema = TableSet
+            THEN /\ ready' = TRUE /\ UNCHANGED schema
+                 /\ disk' = IF PRUNE_ON_START
+                            THEN {r \in disk : \E q \in disk : q[2] = r[2] /\ TableOf(q) = Tables[2]}
+                            ELSE disk
+            ELSE LET i == CHOOSE i \in DOMAIN Tables : Tables[i] \notin schema /\ \A j \in 1..(i - 1) : Tables[j] \in schema IN
+                 schema' = schema \cup {Tables[i]} /\ UNCHANGED <<ready, disk>>
+    /\ UNCHANGED <<txn, cur, pos, acked, done, crashed, faults, failed, restarts>>
+
+Begin(op) == /\ ~crashed /\ ready /\ cur = "none" /\ op \notin done
              /\ cur' = op /\ pos' = 1 /\ txn' = {}
-             /\ UNCHANGED <<disk, acked, done, crashed, faults, failed>>
+             /\ UNCHANGED <<disk, acked, done, crashed, faults, failed, schema, ready, restarts>>
 
 \* the last row of an object has just been written
 ObjectBoundary == pos > 1 /\ pos <= Len(Ops[cur]) /\ Ops[cur][pos][2] # Ops[cur][pos - 1][2]
@@ -47,12 +76,12 @@ Write == /\ ~crashed /\ cur # "none" /\ pos <= Len(Ops[cur])
             THEN disk' = disk \cup txn /\ txn' = {Ops[cur][pos]}
             ELSE txn' = txn \cup {Ops[cur][pos]} /\ UNCHANGED disk
          /\ pos' = pos + 1
-         /\ UNCHANGED <<cur, acked, done, crashed, faults, failed>>
+         /\ UNCHANGED <<cur, acked, done, crashed, faults, failed, schema, ready, restarts>>
 
 Commit == /\ ~crashed /\ cur # "none" /\ pos = Len(Ops[cur]) + 1
           /\ disk' = disk \cup txn /\ txn' = {}
           /\ pos' = pos + 1
-          /\ UNCHANGED <<cur, acked, done, crashed, faults, failed>>
+          /\ UNCHANGED <<cur, acked, done, crashed, faults, failed, schema, ready, restarts>>
 
 \* a transient storage fault: the statement at `pos` or the COMMIT is refused.  The error surfaces in the handler, the
 \* unit of work is abandoned (its rows never reach the disk) and the operation is reported as FAILED - not acknowledged.
@@ -62,19 +91,27 @@ Fault == /\ ~crashed /\ cur # "none" /\ pos <= Len(Ops[cur]) + 1 /\ faults > 0
             THEN /\ txn' = {} /\ UNCHANGED <<cur, pos, done, failed>>      \* rollback, then COMMIT again: nothing left to commit
             ELSE /\ txn' = {} /\ cur' = "none" /\ pos' = 0
                  /\ done' = done \cup {cur} /\ failed' = failed \cup {cur}
-         /\ UNCHANGED <<disk, acked, crashed>>
+         /\ UNCHANGED <<disk, acked, crashed, schema, ready, restarts>>
 
 Ack == /\ ~crashed /\ cur # "none" /\ pos = Len(Ops[cur]) + 2
        /\ acked' = acked \cup {cur} /\ done' = done \cup {cur}
        /\ cur' = "none" /\ pos' = 0
-       /\ UNCHANGED <<disk, txn, crashed, faults, failed>>
+       /\ UNCHANGED <<disk, txn, crashed, faults, failed, schema, ready, restarts>>
 
 \* process death at any instant; recovery rolls the open transaction back
 Crash == /\ ~crashed
-         /\ crashed' = TRUE /\ txn' = {}
-         /\ UNCHANGED <<disk, cur, pos, acked, done, faults, failed>>
+         /\ crashed' = TRUE /\ txn' = {} /\ ready' = FALSE
+         /\ UNCHANGED <<disk, cur, pos, acked, done, faults, failed, schema, restarts>>
 
-Next == (\E op \in OpNames : Begin(op)) \/ Write \/ Commit \/ Ack \/ Crash \/ Fault
+\* the process is started again on the same files: the interrupted operation is gone (its client never got an answer; a
+\* retry would be another operation), start-up runs from the beginning
+MaxRestarts == 2
+Restart == /\ crashed /\ restarts < MaxRestarts
+           /\ crashed' = FALSE /\ cur' = "none" /\ pos' = 0 /\ restarts' = restarts + 1
+           /\ done' = IF cur = "none" THEN done ELSE done \cup {cur}
+           /\ UNCHANGED <<disk, txn, acked, faults, failed, schema, ready>>
+
+Next == StartStep \/ (\E op \in OpNames : Begin(op)) \/ Write \/ Commit \/ Ack \/ Crash \/ Fault \/ Restart
 Spec == Init /\ [][Next]_vars
 
 \* after recovery (crashed), what a fresh server finds is `disk`
@@ -84,6 +121,11 @@ AllOrNothing == crashed => \A op \in OpNames : RowsOf(op) \subseteq disk \/ Rows
 FailedAbsent == \A op \in failed : RowsOf(op) \cap disk = {}
 AckedOnDisk == \A op \in acked : RowsOf(op) \subseteq disk
 NoOrphanWrites == \A r \in disk : \E op \in OpNames : r \in RowsOf(op)
+\* a server that serves has its whole schema: whenever and however often start-up was interrupted, the store can be
+\* opened, listed and written again ("never a store the server can no longer open")
+Serviceable == ready => schema = TableSet
+\* a restart changes nothing that was committed
+RestartKeeps == [][(~ready /\ ~crashed) => disk \subseteq disk']_vars
 
 --------------------------------------------------------------------------
 (* the same predicates over an observed crash experiment                   *)
